@@ -171,9 +171,13 @@ def main():
                 silent = sorted(c for c, v in r[tier].items() if v['rc'] == 0)
                 err = sorted(c for c, v in r[tier].items() if v['rc'] not in (0, 1))
                 rows.append((mid, m.get('property'), tier, caught, silent, err))
+        lines = ['| seeded change | breaks | tier | caught by | silent | exit 2 (nothing decided) |', '|---|---|---|---|---|---|']
         for row in rows:
             print('%-10s target=%s tier=%-8s caught_by=%s%s' % (row[0], row[1], row[2], ','.join(row[3]) or '-',
                                                                 ('  harness_err=' + ','.join(row[5])) if row[5] else ''))
+            lines.append('| %s | %s | %s | %s | %d checks | %s |' % (row[0], row[1], row[2], ', '.join(row[3]) or '**none**', len(row[4]), ', '.join(row[5]) or ''))
+        with open(os.path.join(SEEDED, 'MATRIX.md'), 'w') as fh:
+            fh.write('# Catch matrix (generated by tools/seeded.py table)\n\n' + '\n'.join(lines) + '\n')
 
 
 if __name__ == '__main__':
